@@ -149,6 +149,52 @@ func TwinPath(rt *rapid.T, base, label string) string {
 	return base[:j] + string(nib) + base[j+1:]
 }
 
+// GenLongPath draws a path of 8..20 bytes (16..40 hex characters) made mostly of repeated "00" bytes, so that whole
+// 8-character stretches repeat inside a path and between paths; more than half of the draws derive the path from a
+// long path already used (one byte changed, truncated, extended, or a new tail from some position on).
+func GenLongPath(rt *rapid.T, used []string, label string) string {
+	b := func(l string) string {
+		if gen.Chance(rt, 60, l+"z") {
+			return "00"
+		}
+		return gen.Pick(rt, []string{"01", "0a", "10", "ff", "a0", "00"}, l)
+	}
+	var long []string
+	for _, u := range used {
+		if len(u) >= 16 {
+			long = append(long, u)
+		}
+	}
+	if len(long) > 0 && gen.Chance(rt, 55, label+"_d") {
+		base := gen.Pick(rt, long, label+"_base")
+		nb := len(base) / 2
+		switch gen.Uniform(rt, 0, 3, label+"_m") {
+		case 0:
+			i := gen.Uniform(rt, 0, nb-1, label+"_i")
+			return base[:2*i] + gen.Pick(rt, []string{"01", "0a", "10", "ff", "00"}, label+"_c") + base[2*i+2:]
+		case 1:
+			return base[:2*gen.Uniform(rt, 4, nb, label+"_t")]
+		case 2:
+			p := base
+			for i := gen.Uniform(rt, 1, 8, label+"_x"); i > 0 && len(p) < 48; i-- {
+				p += b(label + "_e")
+			}
+			return p
+		default:
+			p := base[:2*gen.Uniform(rt, 0, nb-1, label+"_k")]
+			for len(p) < len(base) {
+				p += b(label + "_n")
+			}
+			return p
+		}
+	}
+	p := ""
+	for i := gen.Uniform(rt, 8, 20, label+"_len"); i > 0; i-- {
+		p += b(label + "_b")
+	}
+	return p
+}
+
 // GenFixedPath draws a path of exactly nBytes bytes (production shape: no path is a prefix of another).
 func GenFixedPath(rt *rapid.T, nBytes int, label string) string {
 	p := ""
